@@ -102,8 +102,19 @@ def child(req):
         os.fsync(fh.fileno())
     if req["final"] == "flush":
         f.flush()
+        if rnd.random() < 0.5:
+            state(f)                         # "then only reads" (c17_flush_then_kill)
     else:
         f.close()
+        if rnd.random() < 0.5:
+            # "then ANY calls" (c17_close_then_anything): on a closed file every call is refused and none reaches the bytes
+            for call in (lambda: b.create_data_array("late", "t", data=[1.0]), lambda: setattr(b, "definition", "late"),
+                         lambda: f.create_block("late", "t"), lambda: f.create_section("late", "t"), lambda: f.flush(),
+                         lambda: f.close()):
+                try:
+                    call()
+                except BaseException:
+                    pass
     os.kill(os.getpid(), signal.SIGKILL)
 
 
